@@ -123,6 +123,13 @@ def make_ops():
     A(dict(op="setitem-nd", x=0, key="ellipsis"))
     A(dict(op="setitem-nd", x=1, key="dict-letter"))
     A(dict(op="setitem-arr", x=0, y=1))
+    A(dict(op="setitem-arr", x=1, y=0))
+    A(dict(op="setitem-arr", x=2, y=0))
+    A(dict(op="setitem-arr", x=0, y="same"))
+    A(dict(op="setitem-arr", x=1, y="same"))
+    A(dict(op="setitem-arr", x=4, y="permuted"))
+    for x, o in ((0, "abs"), (1, "sign"), (0, "cumsum"), (4, "abs")):
+        A(dict(op="inplace", x=x, o=o))
     A(dict(op="build-stock", cls="InflowDrivenDSM"))
     A(dict(op="build-stock", cls="StockDrivenDSM"))
     A(dict(op="build-stock", cls="SimpleFlowDrivenStock"))
@@ -195,7 +202,7 @@ def apply_op(st, op, check):
     name = op["op"]
     # registers that (legitimately, e.g. through sum_to over all dims) share memory with a written register
     aliased = set()
-    if name in ("setitem-nd", "setitem-arr"):
+    if name in ("setitem-nd", "setitem-arr", "inplace"):
         aliased = {i for i, a in enumerate(r) if np.shares_memory(a.values, r[op["x"]].values)}
     extra_inputs = []  # (label, object, snapshot-fn result)
     probe_values = True  # whether the result's values must be independent
@@ -286,6 +293,19 @@ def apply_op(st, op, check):
                 return None
             parts = x.split(op["letter"])
             return list(parts.values())[-1]
+        if name == "inplace":  # explicitly in-place operations: only the receiver may change
+            x = r[op["x"]]
+            if op["o"] == "abs":
+                out = x.abs(inplace=True)
+            elif op["o"] == "sign":
+                out = x.sign(inplace=True)
+            else:
+                if not x.dims.letters:
+                    return None
+                out = x.cumsum(x.dims.letters[-1], inplace=True)
+            if out is not None:
+                raise AssertionError("INPUT-CHANGED: an in-place operation returned a value")
+            return None
         if name == "setitem-nd":
             x = r[op["x"]]
             k = key_for(x, op["key"])
@@ -298,9 +318,18 @@ def apply_op(st, op, check):
                 raise AssertionError("NOT-COPIED")
             return None
         if name == "setitem-arr":
-            x, y = r[op["x"]], r[op["y"]]
+            x = r[op["x"]]
+            if op["y"] == "same":  # a fresh right-hand side over exactly the target's dims, same storage order
+                y = FlodymArray(dims=x.dims, values=np.array(x.values * 0.0 + 7.0 + np.arange(x.values.size).reshape(x.values.shape)))
+            elif op["y"] == "permuted":
+                rev = x.dims.get_subset(tuple(reversed(x.dims.letters)))
+                y = FlodymArray(dims=rev, values=np.array(np.arange(float(rev.total_size)).reshape(rev.shape) + 3.0))
+            else:
+                y = r[op["y"]]
             if any(l not in y.dims.letters for l in x.dims.letters):
                 return None
+            if np.shares_memory(x.values, y.values):
+                return None  # the two registers alias already (e.g. through sum_to over all dims): not an effect of the assignment
             ysig = sig(y)
             x[...] = y
             if sig(y) != ysig:
@@ -312,6 +341,13 @@ def apply_op(st, op, check):
             y.values[...] = yold
             if not ok:
                 raise AssertionError("RHS-ALIASED")
+            ys = y.values.copy()
+            xold = x.values.copy()
+            x.values[...] = x.values + 1.0
+            ok = np.array_equal(ys, y.values)
+            x.values[...] = xold
+            if not ok:
+                raise AssertionError("RHS-ALIASED: editing the target in place afterwards changed the right-hand side")
             return None
         if name in ("build-stock", "build-lifetime", "build-system-export"):
             return build_objects(op, extra_inputs)
@@ -330,10 +366,10 @@ def apply_op(st, op, check):
         if "INPUT-CHANGED" in got:
             return fail("input-changed", got)
         # an operation that is not applicable in this state (e.g. missing dims): inputs must be untouched anyway
-        if name not in ("setitem-nd", "setitem-arr") and snap(st) != before:
+        if name not in ("setitem-nd", "setitem-arr", "inplace") and snap(st) != before:
             return fail("input-changed", f"the call raised ({got}) and changed a register")
         return "not-applicable", None
-    writes = name in ("setitem-nd", "setitem-arr")
+    writes = name in ("setitem-nd", "setitem-arr", "inplace")
     if check:
         now = snap(st)
         for i, (a, b) in enumerate(zip(now, before)):
@@ -500,7 +536,7 @@ def run_unit(u):
     ops = OPS
     if u["depth"] >= 3:
         # depth 3 over the array-producing operations only (the others do not change the state)
-        ops = [o for o in OPS if o.get("dest") is not None or o["op"].startswith("setitem")]
+        ops = [o for o in OPS if o.get("dest") is not None or o["op"].startswith("setitem") or o["op"] == "inplace"]
     r = bfs.explore(build_state, ops if u["depth"] >= 3 else OPS, apply_op, canon, u["depth"], prefix=[OPS[u["first"]]])
     for f in r["fails"]:
         f["case"] = dict(history=f["case"]["history"])
